@@ -139,6 +139,11 @@ def rand_lines(rng, field: Optional[str] = None) -> List[str]:
 
 # ------------------------------------------------------------------ metadata generator
 
+def fresh_name(rng, used: List[str]) -> str:
+    free = [n for n in NAMES + ["jet_tool", "x y", "{{n}}"] if n not in used]
+    return rng.choice(free) if free else "b%d" % len(used)
+
+
 def rand_block(rng, fields: List[str], name: Optional[str] = None) -> Dict[str, Any]:
     b: Dict[str, Any] = {"metadata_type": "inject_code", "name": name if name is not None else rng.choice(NAMES)}
     k = rng.choice([0, 1, 1, 2, 2, 3, 4, len(fields)])
@@ -179,7 +184,9 @@ def rand_mds(rng, fields: List[str], allow_bad: bool = True) -> List[Dict[str, A
                 m[f] = list(reversed(old)) if len(set(old)) > 1 else old + ["x"]
             mds.append(m)
         elif r < 0.70 or not allow_bad:
-            mds.append(rand_block(rng, fields))
+            # a new name, unless a clash is wanted (two random blocks of one name nearly always differ)
+            used = [m.get("name") for m in prev]
+            mds.append(rand_block(rng, fields, None if want_conflict and rng.random() < 0.3 else fresh_name(rng, used)))
         elif r < 0.85:
             # another kind of metadata whose object also has `.name` (possibly the same name)
             mds.append({"metadata_type": "add_job_script", "name": "js%d_%s" % (i, rng.choice(NAMES)) if rng.random() < 0.5 else rng.choice(NAMES) + "_js%d" % i,
@@ -187,7 +194,7 @@ def rand_mds(rng, fields: List[str], allow_bad: bool = True) -> List[Dict[str, A
         elif r < 0.90:
             mds.append({"metadata_type": "inject_code"})  # no key at all: skipped
         else:
-            mds.append(rand_block(rng, fields))
+            mds.append(rand_block(rng, fields, fresh_name(rng, [m.get("name") for m in prev])))
     if want_malformed and mds:
         cands = [m for m in mds if m["metadata_type"] == "inject_code"]
         if cands:
@@ -267,6 +274,21 @@ def executor_for(backend: str):
     return cms_miniaod_executor()
 
 
+def deterministic_names():
+    """Generated C++ names carry a process-wide running index (common/cpp_vars.unique_var_index);
+    restart it before each run so that the query's own lines are the same text in every run."""
+    import vlib
+
+    try:
+        import func_adl_xAOD.common.cpp_vars as cpp_vars
+
+        if not isinstance(cpp_vars.unique_var_index, int):
+            raise AttributeError
+        cpp_vars.unique_var_index = 0
+    except (ImportError, AttributeError):
+        raise vlib.InternalError("cannot restart the generated-name index (func_adl_xAOD.common.cpp_vars.unique_var_index): the query's own lines would differ from run to run")
+
+
 def real_package(backend: str, mds: List[Dict[str, Any]], query: str) -> Dict[str, Any]:
     """The public pipeline. Returns the metadata in the order the executor sees it, the public
     inject properties after apply_ast_transformations, and the text of every generated file."""
@@ -275,11 +297,13 @@ def real_package(backend: str, mds: List[Dict[str, Any]], query: str) -> Dict[st
     from func_adl.ast import extract_metadata
 
     logging.disable(logging.WARNING)
+    executor_for(backend)  # imports (some consume name indices at import time) happen before the restart
+    deterministic_names()
     ds = _dataset()
     for m in mds:
         ds = ds.MetaData(copy.deepcopy(m))
     a = ds.Select(query).value()
-    _, seen = extract_metadata(a)
+    _, seen = extract_metadata(copy.deepcopy(a))  # the visitor rewrites the tree it is given
     res: Dict[str, Any] = {"seen": seen}
     d = tempfile.mkdtemp(prefix="c14_")
     try:
@@ -392,6 +416,11 @@ class Baseline:
 
     def layout(self, backend: str, file: str):
         k = (backend, file)
+        if not self.layouts:  # one driver call for every file of every backend
+            t = self.ctx.c14_templates
+            ks = [(b, f) for b in BACKENDS for f in (t.backends[b]["files"] or [])]
+            ans = self.ctx.driver(DRIVER, [{"op": "layout", "backend": b, "file": f} for b, f in ks])
+            self.layouts = dict(zip(ks, ans))
         if k not in self.layouts:
             self.layouts[k] = self.ctx.driver(DRIVER, [{"op": "layout", "backend": backend, "file": file}])[0]
         return self.layouts[k]
@@ -449,7 +478,7 @@ def translate(ctx):
 
 def stream_sizes(ctx) -> Dict[str, int]:
     if ctx.tier == "quick":
-        return {"A": 140, "B": 2500, "C": 330}
+        return {"A": 200, "B": 4000, "C": 500}
     return {"A": 1500, "B": 40000, "C": 4000}
 
 
